@@ -2398,6 +2398,11 @@ class Engine:
                 continue
             items = self.static_items(it)
             if items is None:
+                h = self.contract.hooks.get('listcomp')
+                r = h(self, e, it, st1, e) if h else None
+                if r is not None:
+                    out.extend(r)
+                    continue
                 raise Unsupported(e, 'comprehension over symbolic sequence')
             res = [(st1, [])]
             for item in items:
